@@ -43,7 +43,8 @@ fn run_item(base: &Report, cli: &Cli, cfg: &Cfg, idx: usize, item: &Item) -> Rep
         Item::Sweep(p) => {
             let spec = cases::spec_for(p, &mut rng, cfg);
             let trivial = spec.is_empty();
-            cases::sweep_cases(p, &spec, |case| {
+            let mut pick = Rng::stream(cli.seed, 0x5000_0000 + idx as u64);
+            cases::sweep_cases(p, &spec, cfg, &mut pick, |case| {
                 if trivial {
                     rep.eval(None);
                 } else {
